@@ -449,7 +449,7 @@ impl Property for C20 {
     }
 
     fn generate(&self, rng: &mut Rng, tier: Tier) -> Case {
-        let family = match rng.below(26) {
+        let family = match rng.below(27) {
             0..=4 => "valid",
             5..=6 => "invalid",
             7..=9 => "read-fault",
@@ -460,7 +460,8 @@ impl Property for C20 {
             20..=22 => "file-read-fault",
             23 => "stdin-preset",
             24 => "stderr-preset",
-            _ => "missing-file",
+            25 => "missing-file",
+            _ => "info",
         };
         let mut case = Case::new("C20", family);
         let big = rng.chance(1, 8);
@@ -591,6 +592,10 @@ impl Property for C20 {
             "stdin-preset" => {
                 case.set("stdin", rng.range(1, 2) as i64);
             }
+            "info" => {
+                case.set("flag", rng.below(4) as i64);
+                case.set("with_opts", i64::from(rng.chance(1, 2)));
+            }
             "missing-file" => {
                 // 0 = the only argument, 1 = after a real file, 2 = before a real file
                 // (after a real file only when nothing can stop the run before it gets there)
@@ -625,6 +630,7 @@ impl Property for C20 {
             "file-read-fault" => return check_file_fault(case, ctx),
             "stdin-preset" => return check_stdin_preset(case, ctx),
             "missing-file" => return check_missing_file(case, ctx),
+            "info" => return check_info(case, ctx),
             "stderr-preset" => return check_stderr_preset(case, ctx),
             _ => {}
         }
@@ -1175,4 +1181,28 @@ pub fn run_watched(case: &Case, input: &[u8], ctx: &mut Ctx) -> Result<(Option<i
     let reads = c.log.iter().filter(|l| l.0 == 0 && l.1 == 'r').count();
     let writes = c.log.iter().filter(|l| l.0 == 1 && l.1 == 'w').count();
     Ok((c.status, c.out, c.err, reads, writes))
+}
+
+/// --version / --help: a run that only prints information succeeds (status 0, the text on
+/// standard output, nothing on standard error), whatever else is on the command line.
+fn check_info(case: &Case, ctx: &mut Ctx) -> Option<Violation> {
+    let flag = ["--version", "-V", "--help", "-h"][(case.param("flag").max(0) as usize) % 4];
+    let mut c = case.clone();
+    if case.param("with_opts") != 1 {
+        c.opts.clear();
+    }
+    c.opts.push(vec![flag.to_string()]);
+    let r = try_spawn!(ctx, spawn_cfg(&c, &case.stream(), &Cfg::plain(), &[], ctx));
+    ctx.stats.nontrivial = true;
+    ctx.stats.fault("info-flag", 1);
+    if r.timed_out {
+        return viol("C20.hang", format!("{flag}: child did not finish: {}", r.describe()));
+    }
+    if r.status != Some(0) {
+        return viol("C20.exit-ok", format!("{flag} only prints information, yet: {}", r.describe()));
+    }
+    if r.out.is_empty() || !r.err.is_empty() {
+        return viol("C20.exit-ok", format!("{flag}: the information belongs on standard output and nothing on standard error: {}", r.describe()));
+    }
+    None
 }
